@@ -59,6 +59,8 @@ static const char* state_name[] = { "harness-code", "acquire(write)", "acquire(r
 
 static constexpr int MAXT = 8;
 static bool g_light = false;                      // tsan: no global stamps, no atomic RMW inside sections
+static bool g_reupgrade = true;                   // may a hold contain upgrade -> downgrade -> upgrade (see the c08 check: debug assertion of queuing_rw_mutex)
+static bool g_heap_nodes = false;                 // asan: every scoped_lock lives in its own heap block, so a neighbour touching a released queue node is reported
 static std::atomic<uint64_t> g_seq{1};
 
 // ------------------------------------------------------------------------------------------------ monitors
@@ -82,7 +84,7 @@ struct alignas(64) ThreadShared {
     std::vector<Req> reqs; std::vector<int> ev;
     // batch accumulators (merged by main after join)
     long st_acq = 0, st_contended = 0, st_try_ok = 0, st_try_fail = 0, st_upg_true = 0, st_upg_false = 0, st_conc_readers = 0,
-         st_downgrades = 0, st_read_sections = 0, st_write_sections = 0, st_native = 0, st_ctor = 0, st_sleep_holds = 0, st_noop_trans = 0;
+         st_downgrades = 0, st_read_sections = 0, st_write_sections = 0, st_native = 0, st_ctor = 0, st_sleep_holds = 0, st_noop_trans = 0, st_txn = 0, st_reupgrades = 0;
 };
 
 struct RoundParams { int cls, nlocks, profile, nops, wpct, trypct; bool heavy; int holder_mode, ntries, upgraders; };
@@ -111,6 +113,9 @@ struct Batch {
         j.end_obj(); return j.s;
     }
     void fail(const char* what, const std::string& detail) {
+        // Inside a hardware transaction (speculative mutexes) nothing may be reported: the report would be rolled back.
+        // Abort it explicitly; the section is re-executed, finally under the real lock, and real holders report.
+        if (_xtest()) _xabort(0xC8);
         result().stat("failed_checks");
         if (round_failed.fetch_add(1) != 0) return;          // one report per round
         std::string key = std::string("c08.") + cls_name[rp.cls] + "." + what;
@@ -131,8 +136,18 @@ static void point_observer(int id, const void* obj, long arg) {
 template <class M> struct Lk {
     using S = typename M::scoped_lock;
     static constexpr bool RW = KT<M>::rw;
-    alignas(64) unsigned char buf[sizeof(S) + 64];
+    alignas(64) unsigned char stackbuf[sizeof(S) + 64];
+    unsigned char* buf = stackbuf;
     S* p = nullptr; M* m = nullptr; int iface = IF_ACQ; bool writer = true;
+    Lk() { next_node(); }
+    ~Lk() { if (buf != stackbuf) ::operator delete(buf, std::align_val_t(64)); }
+    Lk(const Lk&) = delete; Lk& operator=(const Lk&) = delete;
+    // called after every release / failed try: the node of the next request
+    void next_node() {
+        if (!g_heap_nodes) return;
+        if (buf != stackbuf) ::operator delete(buf, std::align_val_t(64));
+        buf = static_cast<unsigned char*>(::operator new(sizeof(S) + 64, std::align_val_t(64)));
+    }
     const void* node() const { return buf; }
     bool acquire(M& mm, bool write, bool try_, int ifc) {
         m = &mm; iface = ifc; writer = write;
@@ -153,7 +168,7 @@ template <class M> struct Lk {
         bool ok;
         if constexpr (RW) { if (try_) ok = p->try_acquire(mm, write); else { p->acquire(mm, write); ok = true; } }
         else { if (try_) ok = p->try_acquire(mm); else { p->acquire(mm); ok = true; } }
-        if (!ok) { p->~S(); p = nullptr; }
+        if (!ok) { p->~S(); p = nullptr; next_node(); }
         return ok;
     }
     bool upgrade() { if constexpr (RW) { writer = true; return p->upgrade_to_writer(); } return true; }
@@ -166,7 +181,7 @@ template <class M> struct Lk {
             return;
         }
         if (iface == IF_CTOR) p->~S(); else { p->release(); p->~S(); }
-        p = nullptr;
+        p = nullptr; next_node();
     }
 };
 
@@ -214,6 +229,7 @@ struct Ctx {
     template <class F> long cs_write(int lock, F&& hold) {
         LockMon& L = B.mon[lock];
         L.slot[t].v.store(2, std::memory_order_relaxed); cfence();
+        if (_xtest()) me.st_txn++;
         if (rp.heavy) {
             int pw = L.w.fetch_add(1), pr = L.r.load();
             if (pw != 0 || pr != 0) B.fail("writer-not-exclusive", "writer entered with writers=" + std::to_string(pw) + " readers=" + std::to_string(pr) + " already inside (atomic holder counters)");
@@ -236,6 +252,7 @@ struct Ctx {
     template <class F> long cs_read(int lock, F&& hold) {
         LockMon& L = B.mon[lock];
         L.slot[t].v.store(1, std::memory_order_relaxed); cfence();
+        if (_xtest()) me.st_txn++;
         if (rp.heavy) { L.r.fetch_add(1); int pw = L.w.load(); if (pw != 0) B.fail("reader-with-writer", "reader entered with writers=" + std::to_string(pw) + " inside (atomic holder counters)"); }
         scan_read(L, "entry", true);
         long vb = vload(L.b), va = vload(L.a);
@@ -285,12 +302,13 @@ template <class M> static void run_chain(Ctx& c, Lk<M>& lk, int lock, bool write
     constexpr bool RW = KT<M>::rw;
     Rng& r = c.rng;
     auto hold = [&] { Hold h = pick_hold(r, c.rp.profile); if (h.kind == 3) c.me.st_sleep_holds++; do_hold(h); };
-    bool w = write;
+    bool w = write, downgraded = false;
     long v;   // version this thread knows to be current while it keeps holding
     if (w) { long e = c.cs_write(lock, hold); v = e + 1; c.ev(10, e); } else { v = c.cs_read(lock, hold); c.ev(11, v); }
     if constexpr (RW) {
         for (int k = 0; k < ntrans; k++) {
             bool up = force_trans ? (force_trans == 1) : (w ? r.chance(1, 6) : r.chance(5, 6));
+            if (up && !w && downgraded && !g_reupgrade) break;
             if (up) {
                 bool was_writer = w;
                 c.state(S_UPGRADE, lock); bool ok = lk.upgrade(); c.state(S_NONE, lock);
@@ -301,6 +319,7 @@ template <class M> static void run_chain(Ctx& c, Lk<M>& lk, int lock, bool write
                     if (e != v) c.B.fail("writer-not-exclusive", "version changed from " + std::to_string(v) + " to " + std::to_string(e) + " while this thread held the write lock (across a no-op upgrade_to_writer)");
                 } else {
                     if (ok) c.me.st_upg_true++; else { c.me.st_upg_false++; c.me.interesting++; }
+                    if (downgraded) c.me.st_reupgrades++;
                     if (ok && e != v) c.B.fail("upgrade-true-but-writer-intervened", "upgrade_to_writer returned true, but the version went from " + std::to_string(v) + " (read section) to " + std::to_string(e) + " (write section): another writer ran in between");
                 }
                 v = e + 1; c.ev(ok ? 12 : 13, e);
@@ -309,7 +328,7 @@ template <class M> static void run_chain(Ctx& c, Lk<M>& lk, int lock, bool write
                 c.state(S_DOWNGRADE, lock); lk.downgrade(); c.state(S_NONE, lock);
                 w = false;
                 long e = c.cs_read(lock, hold);
-                if (was_reader) c.me.st_noop_trans++; else c.me.st_downgrades++;
+                if (was_reader) c.me.st_noop_trans++; else { c.me.st_downgrades++; downgraded = true; }
                 if (e != v) c.B.fail("writer-across-downgrade", "version went from " + std::to_string(v) + " to " + std::to_string(e) + " across downgrade_to_reader: a writer got in");
                 c.ev(14, e);
             }
@@ -565,6 +584,49 @@ template <class M> static void run_batch(Batch& B, Result& R) {
     perturb().clear();
 }
 
+std::vector<HookThread*>* volatile g_keep_reachable = nullptr;
+
+// Deterministic reproducer (--repro reupgrade): reader A upgrades (wins), downgrades and upgrades again while reader B is
+// waiting inside its own upgrade_to_writer. With TBB_USE_ASSERT the second upgrade aborts in queuing_rw_mutex.cpp
+// ("n_state & (STATE_WRITER | STATE_UPGRADE_WAITING)", B is in STATE_UPGRADE_LOSER); release builds must keep the property.
+static void repro_reupgrade(Result& R, long rounds) {
+    for (long i = 0; i < rounds; i++) {
+        tbb::queuing_rw_mutex m; std::atomic<int> stage{0}; long a = 0, b = 0; std::atomic<int> bad{0};
+        bool u1 = false, u2 = false, ub = false;
+        std::thread tb([&] {
+            while (stage.load() < 1) sched_yield();
+            tbb::queuing_rw_mutex::scoped_lock l(m, false);       // B queues behind A as a reader
+            long v = vload(a);
+            stage.store(2);
+            while (stage.load() < 3) sched_yield();
+            ub = l.upgrade_to_writer();                             // waits for A
+            long e = vload(a); if (ub && e != v) bad++;
+            if (vload(b) != e) bad++;
+            vstore(a, e + 1); vstore(b, e + 1);
+        });
+        {
+            tbb::queuing_rw_mutex::scoped_lock l(m, false); stage.store(1);
+            while (stage.load() < 2) sched_yield();
+            long v = vload(a);
+            stage.store(3);
+            u1 = l.upgrade_to_writer();                             // A is first in the queue; B ends up in UPGRADE_WAITING
+            if (u1 && vload(a) != v) bad++;
+            vstore(a, v + 1); sleep_us(3000 + (unsigned)(i % 5) * 1000); vstore(b, v + 1);
+            l.downgrade_to_reader();                                // marks B UPGRADE_LOSER
+            if (vload(a) != v + 1 || vload(b) != v + 1) bad++;
+            u2 = l.upgrade_to_writer();                             // next is in STATE_UPGRADE_LOSER
+            if (vload(a) != v + 1) bad++;                          // A held the lock all the time: nobody may have written
+            vstore(a, v + 2); vstore(b, v + 2);
+        }
+        tb.join();
+        R.scenarios++; R.nontrivial++; R.signature(mix(0xBEEF, (uint64_t)u1 * 4 + u2 * 2 + ub + i * 8));
+        R.stat("repro_reupgrade_rounds"); if (u2) R.stat("repro_second_upgrade_true"); if (!ub) R.stat("repro_waiting_upgrader_lost");
+        if (bad.load() || vload(a) != 3 || vload(b) != 3)
+            R.violation("c08.X.reupgrade-repro", "upgrade -> downgrade -> upgrade with a waiting upgrader broke exclusion or the upgrade result (bad=" + std::to_string(bad.load()) + " a=" + std::to_string(a) + " b=" + std::to_string(b) + ")", "{\"repro\":\"reupgrade\"}");
+        progress();
+    }
+}
+
 static bool cpu_has_rtm() {
     FILE* f = fopen("/proc/cpuinfo", "r"); if (!f) return false;
     char line[8192]; bool has = false;
@@ -577,6 +639,8 @@ int main(int argc, char** argv) {
     Result& R = result();
     long cases = a.num("cases", 2000);
     g_light = (R.variant == "tsan") || a.has("light");
+    g_reupgrade = a.num("reupgrade", 1) != 0;
+    g_heap_nodes = (R.variant == "asan") || a.has("heapnodes");
     int only_kind = -1; std::string ks = a.str("kind", "");
     for (int k = 0; k < K_N; k++) if (ks == kind_name[k]) only_kind = k;
     if (!ks.empty() && only_kind < 0) { fprintf(stderr, "unknown --kind %s\n", ks.c_str()); return 2; }
@@ -586,7 +650,8 @@ int main(int argc, char** argv) {
     tbb::global_control gc(tbb::global_control::max_allowed_parallelism, 16);
     set_point_observer(point_observer);
     Rng top(mix(R.seed, 0xC08));
-    R.stat("cpu_has_rtm", cpu_has_rtm() ? 1 : 0);
+    bool rtm = cpu_has_rtm();
+    R.stat("cpu_has_rtm", rtm ? 1 : 0);
     R.stat("processes", 1);
 
     WatchdogCfg wc;
@@ -617,11 +682,16 @@ int main(int argc, char** argv) {
         R.finish_and_exit(3);
     });
 
+    if (a.str("repro", "") == "reupgrade") { repro_reupgrade(R, cases); watchdog_stop(); R.write(); return 0; }
+
     long done = 0;
     long acc[16] = { 0 };
     long fifo_pairs = 0, fifo_requests = 0, fifo_no_witness = 0, storms = 0, storms_over = 0;
     while (done < cases) {
         int kind = only_kind >= 0 ? only_kind : (int)top.below(K_N);
+        // TSan does not model hardware transactions: sections run under a speculative mutex inside an RTM transaction
+        // look like unsynchronised accesses to it. The speculative kinds are not run in that variant.
+        if (R.variant == "tsan" && rtm && (kind == K_SPEC || kind == K_SPEC_RW)) { if (only_kind >= 0) break; continue; }
         unsigned x = (unsigned)top.below(16);
         int nthreads = x < 5 ? 2 : x < 9 ? 3 : x < 14 ? 4 : 5 + (int)top.below(4);
         if (nthreads > maxthreads) nthreads = maxthreads;
@@ -642,9 +712,9 @@ int main(int argc, char** argv) {
         long k_acq = 0, k_cont = 0;
         for (int t = 0; t < B->nthreads; t++) {
             ThreadShared& s = B->ts[t];
-            long v[14] = { s.st_acq, s.st_contended, s.st_try_ok, s.st_try_fail, s.st_upg_true, s.st_upg_false, s.st_conc_readers, s.st_downgrades,
-                           s.st_read_sections, s.st_write_sections, s.st_native, s.st_ctor, s.st_sleep_holds, s.st_noop_trans };
-            for (int i = 0; i < 14; i++) acc[i] += v[i];
+            long v[16] = { s.st_acq, s.st_contended, s.st_try_ok, s.st_try_fail, s.st_upg_true, s.st_upg_false, s.st_conc_readers, s.st_downgrades,
+                           s.st_read_sections, s.st_write_sections, s.st_native, s.st_ctor, s.st_sleep_holds, s.st_noop_trans, s.st_txn, s.st_reupgrades };
+            for (int i = 0; i < 16; i++) acc[i] += v[i];
             k_acq += s.st_acq; k_cont += s.st_contended + s.st_try_fail;
         }
         R.stat(std::string("acquisitions.") + kind_name[kind], k_acq);
@@ -659,14 +729,17 @@ int main(int argc, char** argv) {
         fifo_pairs += B->fifo_pairs; fifo_requests += B->fifo_requests; fifo_no_witness += B->fifo_no_witness; storms += B->storms; storms_over += B->storms_overlapping;
     }
     watchdog_stop();
-    static const char* names[14] = { "acquisitions", "contended_blocking_acquires", "try_ok", "try_refused", "upgrade_true", "upgrade_false", "concurrent_reader_sections",
-                                     "downgrades", "read_sections", "write_sections", "via_native_interface", "via_scoped_ctor_dtor", "sleeping_holds", "noop_transitions" };
-    for (int i = 0; i < 14; i++) R.stat(names[i], acc[i]);
+    static const char* names[16] = { "acquisitions", "contended_blocking_acquires", "try_ok", "try_refused", "upgrade_true", "upgrade_false", "concurrent_reader_sections",
+                                     "downgrades", "read_sections", "write_sections", "via_native_interface", "via_scoped_ctor_dtor", "sleeping_holds", "noop_transitions",
+                                     "sections_inside_hardware_transaction", "upgrades_after_downgrade_in_one_hold" };
+    for (int i = 0; i < 16; i++) R.stat(names[i], acc[i]);
     R.stat("fifo_certain_order_pairs", fifo_pairs); R.stat("fifo_requests_checked", fifo_requests); R.stat("fifo_blocking_requests_without_witness", fifo_no_witness);
     R.stat("upgrade_storms", storms); R.stat("upgrade_storms_with_a_loser", storms_over);
     R.stat("hook_delays", (long long)perturb().delays.load());
     uint64_t sleeps = 0; for (auto* t : hook_threads_snapshot()) sleeps += t->sleeps.load();
     R.stat("kernel_sleeps_entered", (long long)sleeps);
+    // vrt's per-thread hook records are never freed by design; keep those of the exited batch threads reachable for LeakSanitizer
+    g_keep_reachable = new std::vector<HookThread*>(hook_threads_snapshot());
     R.write();
     return 0;
 }
